@@ -5,6 +5,7 @@ import (
 	"encoding/json"
 	"fmt"
 	"strings"
+	"time"
 
 	tq "github.com/facebookincubator/tacquito"
 	"github.com/facebookincubator/tacquito/cmds/server/config"
@@ -26,7 +27,7 @@ func init() {
 				Rule: "plane 1 (direct call of the log-backed accounter with a recording sink and Response): every flag octet x seq{1,3,5} x enum profiles; plane 1b: every truncation and every raised length octet (+1,+2,+10,+200) of 8 well-formed requests (0..3 arguments) - bodies whose announced field lengths exceed the octets that follow must be answered ERROR with no sink record; plane 2: every 4-tuple of content tokens " +
 					"{plain,%,%s%d,100%,%!v(,\",\\,\\n,\\x00,\\x7f,'a b',<&>,255x%, literal \\u003c / \\u0026\\u003e / \\\\n\\\" / \\u00e9 / &lt;} in user/port/rem_addr/argument, argument counts {0,1,2,255}; plane 3 (full reference server over the scripted network): " +
 					"all arrival orders of length <= 3 over {start,stop,watchdog@1,watchdog-update@3,bad-flags,undecodable} x {fresh session id, the previous event's session id with the next client sequence number} x users {with accounter, via group, unknown, without accounter}, " +
-					"checking that the sink call precedes the reply's write on the global event clock; plane 4 (engine E2): two connections sending accounting records concurrently under the controlled scheduler with statement-level points in the accounter, every schedule with <= 1 (quick) / 2 (thorough) deviations. Oracle: a SUCCESS reply implies exactly one sink call whose rendered line (format and arguments as log.Logger would print them) " +
+					"checking that the sink call precedes the reply's write on the global event clock; plane 5: the sink hangs in its first write for three seconds of real time while two connections send records - no SUCCESS may be on the wire for a record the sink has not been handed, and after the sink returns both are acknowledged with exactly one record each; plane 4 (engine E2): two connections sending accounting records concurrently under the controlled scheduler with statement-level points in the accounter, every schedule with <= 1 (quick) / 2 (thorough) deviations. Oracle: a SUCCESS reply implies exactly one sink call whose rendered line (format and arguments as log.Logger would print them) " +
 					"JSON-decodes to exactly the request's fields; undecodable / stop+watchdog / unknown user / no accounter are answered ERROR. distinct_nontrivial = distinct requests answered SUCCESS (by content hash)",
 				Assumptions: []string{"'cannot be decoded' is taken as: the announced user/port/rem_addr/argument lengths exceed the octets present; a body that ends inside the fixed part or the argument-length table (which the library decodes with zero-length arguments) is not judged", "the sink is rendered with fmt.Sprintf(format, args...), which is what log.Logger.Printf does"}}
 		},
@@ -304,8 +305,105 @@ func c12Run(c *Ctx) {
 			}
 		}
 	}
+	// plane 5: the log destination hangs
+	job++
+	if c.Mine(job) {
+		c12StalledSink(c)
+	}
 	// plane 3: full server, orders and entry paths
 	c12Server(c, &job)
+}
+
+// c12StalledSink: the log destination hangs in its first write. While it does, no request may be acknowledged whose record
+// has not been handed to the sink; when it comes back, everything is as always.
+func c12StalledSink(c *Ctx) {
+	c.R.Eval()
+	cs := c12Case{Hist: []c12Ev{{Kind: "stalled-sink"}}}
+	c.Cur(cs)
+	rw, err := newRWorld(c12Config(), nil, false)
+	if err != nil {
+		panic(err)
+	}
+	defer rw.stop()
+	gate := make(chan struct{})
+	rw.Sink.take()
+	rw.Sink.setGate(gate)
+	released := false
+	release := func() {
+		if !released {
+			released = true
+			rw.Sink.setGate(nil)
+			close(gate)
+		}
+	}
+	defer release()
+	mk := func(user, task string, flags int, sid uint32) (*ref.Msg, []byte) {
+		m := ref.NewMsg()
+		m.N["flags"], m.N["authen_method"], m.N["priv_lvl"], m.N["authen_type"], m.N["authen_service"] = flags, 6, 1, 1, 1
+		m.S["user"], m.S["port"], m.S["rem_addr"] = []byte(user), []byte("tty1"), []byte("10.9.9.9")
+		m.Args = [][]byte{[]byte("task_id=" + task)}
+		body, _ := ref.AcctRequest.Encode(m)
+		return m, ref.Packet(ref.Header{Version: 0xc0, Type: 3, Seq: 1, Session: sid}, []byte("acct-key"), body)
+	}
+	msgs := make([]*ref.Msg, 2)
+	conns := make([]*simnet.Conn, 2)
+	for i := range conns {
+		cn, err := rw.W.Open(srvx.Addr4(10, 1, 2, byte(10+i), 1212))
+		if err != nil {
+			c.Abort("hang", err.Error(), cs)
+		}
+		conns[i] = cn
+	}
+	var w0, w1 []byte
+	msgs[0], w0 = mk("acct", "100", 2, 0x5a11)
+	msgs[1], w1 = mk("viagroup", "200", 4, 0x5a12)
+	conns[0].Feed(w0)
+	for i := 0; i < 500 && len(rw.Sink.snapshot()) == 0; i++ {
+		time.Sleep(10 * time.Millisecond)
+	}
+	conns[1].Feed(w1)
+	time.Sleep(3 * time.Second) // longer than any plausible "give up waiting for the log" allowance; on code that waits for the sink nothing happens meanwhile
+	judge := func(when string) bool {
+		calls := rw.Sink.snapshot()
+		for i, cn := range conns {
+			pk, _ := srvx.ParseStream(cn.Peek())
+			for _, p := range pk {
+				rm, cl := ref.AcctReply.Decode(ref.Obfuscate(p.H, []byte("acct-key"), p.Body))
+				if cl != ref.Exact || rm.N["status"] != 1 {
+					continue
+				}
+				n := 0
+				for _, cl := range calls {
+					if checkRecord(cl.Rendered(), msgs[i]) == "" {
+						n++
+					}
+				}
+				if n != 1 {
+					c.R.Violate("stalled-sink/acknowledged-without-record", fmt.Sprintf("%s: request %d was answered SUCCESS while the sink had been handed %d records saying what it sent (sink calls so far: %d)", when, i+1, n, len(calls)), cs)
+					return false
+				}
+			}
+		}
+		return true
+	}
+	if !judge("while the log destination hangs in its first write") {
+		return
+	}
+	release()
+	for _, cn := range conns {
+		if _, ok := cn.WaitIdleTimeout(srvx.HangTimeout); !ok {
+			c.Abort("hang", "the server did not finish the accounting requests after the log destination came back", cs)
+		}
+	}
+	c.R.Trans(2)
+	if judge("after the log destination came back") {
+		c.R.Trace()
+	}
+	for _, cn := range conns {
+		if !cn.Closed() {
+			cn.FeedEOF()
+		}
+	}
 }
 
 func c12Config() config.ServerConfig {
@@ -452,6 +550,10 @@ func c12Replay(c *Ctx, raw json.RawMessage) {
 	var cs c12Case
 	if err := json.Unmarshal(raw, &cs); err != nil {
 		panic(err)
+	}
+	if len(cs.Hist) == 1 && cs.Hist[0].Kind == "stalled-sink" {
+		c12StalledSink(c)
+		return
 	}
 	if len(cs.Hist) > 0 {
 		rw, err := newRWorld(c12Config(), nil, false)
